@@ -774,6 +774,56 @@ func (l Layout) Text() string {
 	return b.String()
 }
 
+// RenderFlow prints the whole tree in flow style (falls back to Render when comments forbid it).
+// brk 0: one line; 1: a line break after every ','; 2: additionally a line break after every
+// ':' that precedes a scalar value, so that the scalar starts in the first column of a line.
+func (n *YNode) RenderFlow(brk int) string {
+	if n.Scalar != nil || !canFlow(n) {
+		return n.Render()
+	}
+	return flowTextBrk(n, brk) + "\n"
+}
+
+func flowTextBrk(n *YNode, brk int) string {
+	t := ""
+	if n.Tag != "" {
+		t = n.Tag + " "
+	}
+	sep := ", "
+	if brk >= 1 {
+		sep = ",\n"
+	}
+	switch {
+	case n.Scalar != nil:
+		return t + scalarText(n, true)
+	case n.IsSeq:
+		var parts []string
+		for _, c := range n.Seq {
+			parts = append(parts, flowTextBrk(c, brk))
+		}
+		return t + "[" + strings.Join(parts, sep) + "]"
+	case n.IsMap:
+		var parts []string
+		for i, k := range n.Keys {
+			kt := scalarText(k, true)
+			if k.Tag != "" {
+				kt = k.Tag + " " + kt
+			}
+			v := flowTextBrk(n.Vals[i], brk)
+			colon := ": "
+			if brk >= 2 && n.Vals[i].Scalar != nil {
+				colon = ":\n"
+			}
+			if v == "" {
+				v = "null"
+			}
+			parts = append(parts, kt+colon+v)
+		}
+		return t + "{" + strings.Join(parts, sep) + "}"
+	}
+	return t
+}
+
 // Render prints a mapping or sequence node in block style (used by the fuzzing generators,
 // which mutate the node trees of valid definitions).
 func (n *YNode) Render() string {
